@@ -88,7 +88,10 @@ class C03(Profile):
     name = "C03"
     weights = {"create_block": 3, "create_group": 4, "create_array": 4, "create_tag": 3, "create_mtag": 2,
                "create_feature": 2, "create_source": 5, "create_section": 5, "create_property": 4,
-               "create_frame": 3, "link_append": 5, "link_remove": 3, "delete": 9, "restart": 3, "sec_dict": 2}
+               "create_frame": 3, "link_append": 5, "link_remove": 3, "delete": 9, "restart": 3, "sec_dict": 2,
+               "fresh_copy_ids": 1}
+    late_ops = ("fresh_copy_ids",)
+    build_fraction = 0.5
     owned = ("container_agreement", "id_unique", "missing_refusal", "wrong_error_class", "unexpected_error",
              "create_result", "lookup_failed", "lookup_wrong_entity", "reopen_failed")
     reopen_introspect = False
